@@ -1391,13 +1391,9 @@ class AtLeast(puan.Proposition):
 
             result = AtLeast(
                 value=self.value,
-                propositions=maz.filter_map_concat(
-                    # If proposition has a constant bound after evaluating it
-                    lambda prop: prop.id in new_variable_bounds,
-                    # If is a constant, just keep the variable from the proposition
-                    # else, keep the proposition as is
-                    lambda prop: prop if issubclass(prop.__class__, puan.variable) else prop.variable,
-                )(assumed_propositions),
+                # sub propositions assumed to a constant are already reduced to
+                # their variable by their own assume(); all others keep their definition
+                propositions=assumed_propositions,
                 variable=puan.variable(
                     self.id,
                     bounds=(
